@@ -171,11 +171,32 @@ func (c *collection) CreateIndex(
 	}
 	defer txn.Discard(ctx)
 
+	// The collection keeps its indexes in memory. If the index is not committed, the in-memory
+	// state must be rolled back together with the transaction.
+	restore := c.snapshotIndexes()
+
 	index, err := c.createIndex(ctx, desc)
 	if err != nil {
+		restore()
 		return client.IndexDescription{}, err
 	}
-	return index.Description(), txn.Commit(ctx)
+	err = txn.Commit(ctx)
+	if err != nil {
+		restore()
+		return client.IndexDescription{}, err
+	}
+	return index.Description(), nil
+}
+
+// snapshotIndexes returns a function that resets the in-memory indexes of the collection
+// to what they are now.
+func (c *collection) snapshotIndexes() func() {
+	indexes := slices.Clone(c.indexes)
+	descriptions := slices.Clone(c.def.Version.Indexes)
+	return func() {
+		c.indexes = indexes
+		c.def.Version.Indexes = descriptions
+	}
 }
 
 func processCreateIndexRequest(
@@ -352,11 +373,20 @@ func (c *collection) DropIndex(ctx context.Context, indexName string) error {
 	}
 	defer txn.Discard(ctx)
 
+	// If the index is not dropped in the store, it must remain in the in-memory state.
+	restore := c.snapshotIndexes()
+
 	err = c.dropIndex(ctx, indexName)
 	if err != nil {
+		restore()
 		return err
 	}
-	return txn.Commit(ctx)
+	err = txn.Commit(ctx)
+	if err != nil {
+		restore()
+		return err
+	}
+	return nil
 }
 
 func (c *collection) dropIndex(ctx context.Context, indexName string) error {
